@@ -1,2 +1,9 @@
 import Rtsp.Props.C09
 #print axioms Rtsp.C09.facts_expected
+#print axioms Rtsp.C09.keyval_perm_invariant
+#print axioms Rtsp.C09.parse_perm_invariant
+#print axioms Rtsp.C09.parse_deterministic
+#print axioms Rtsp.C09.Transport.unmarshal_marshal
+#print axioms Rtsp.C09.Transports.unmarshal_marshal
+#print axioms Rtsp.C09.Session.unmarshal_marshal
+#print axioms Rtsp.C09.RtpInfo.unmarshal_marshal
